@@ -206,8 +206,9 @@ func preambleReuse(ns EnvType) string {
 			for i := 0; i < size; i++ {
 				table["k"+strconv.Itoa(i)] = i
 			}
-			for _, v := range []MalType{Vector{Val: buf}, List{Val: buf}, HashMap{Val: table}} {
-				text, err := lisp.AddPreamble("[$ROW]", map[string]MalType{"$ROW": v})
+			for vi, v := range []MalType{Vector{Val: buf}, List{Val: buf}, HashMap{Val: table}} {
+				name := []string{"$ROW", "$LST", "$TBL"}[vi] // one placeholder name per object, the same on every round
+				text, err := lisp.AddPreamble("["+name+"]", map[string]MalType{name: v})
 				if err != nil {
 					return "AddPreamble failed: " + oneLine(err.Error())
 				}
